@@ -240,7 +240,12 @@ class LinDeformFixedTempl(Operator):
 
     def _call(self, displacement, out=None):
         """Implementation of ``self(displacement[, out])``."""
-        return linear_deform(self.template, displacement, self.interp, out)
+        result = linear_deform(self.template, displacement, self.interp)
+        if out is None:
+            return result
+        # `linear_deform` takes a flat `numpy.ndarray` as `out`, not an element
+        out[:] = result
+        return out
 
     def derivative(self, displacement):
         """Derivative of the operator at ``displacement``.
@@ -426,7 +431,12 @@ class LinDeformFixedDisp(Operator):
 
     def _call(self, template, out=None):
         """Implementation of ``self(template[, out])``."""
-        return linear_deform(template, self.displacement, self.interp, out)
+        result = linear_deform(template, self.displacement, self.interp)
+        if out is None:
+            return result
+        # `linear_deform` takes a flat `numpy.ndarray` as `out`, not an element
+        out[:] = result
+        return out
 
     @property
     def inverse(self):
